@@ -419,7 +419,7 @@ func c17ExistenceCache(c *sim.RunCtx) {
 		}
 		plans = append(plans, ops)
 	}
-	policy := t.Choose(3)
+	policy := t.Choose(2) // (the random-replacement set seeds itself from the OS: not replayable)
 	desc := fmt.Sprintf("existence cache size=%d duration=%v policy=%d clients=%d", size, dur, policy, clients)
 	c.Sample["case"] = desc
 	c.Note("case %s plans=%v", desc, plans)
